@@ -631,8 +631,9 @@ fn run_case(case: &Case, srv: &Server, rng: &mut Rng) -> Value {
         Err(e) => return json!({"c": case.idx, "fatal": format!("connect: {}", e)}),
     };
     let _ = sock.set_nodelay(true);
-    let _ = sock.set_read_timeout(Some(Duration::from_secs(20)));
-    let _ = sock.set_write_timeout(Some(Duration::from_secs(20)));
+    // generous: these only end connections that do not end by themselves (the model says every generated one does)
+    let _ = sock.set_read_timeout(Some(Duration::from_secs(45)));
+    let _ = sock.set_write_timeout(Some(Duration::from_secs(45)));
     let local = sock.local_addr().unwrap();
     srv.shared.map.lock().unwrap().insert(local, ctx.clone());
 
@@ -693,7 +694,7 @@ fn run_case(case: &Case, srv: &Server, rng: &mut Rng) -> Value {
                 // a client that is slow to read: start reading 150 ms after the handler began to write its large
                 // message, so that the message cannot fit into the socket buffers
                 let t = Instant::now();
-                while !c2.push_started.load(SeqCst) && t.elapsed() < Duration::from_secs(15) {
+                while !c2.push_started.load(SeqCst) && t.elapsed() < Duration::from_secs(40) {
                     thread::sleep(Duration::from_micros(200));
                 }
                 thread::sleep(Duration::from_millis(150));
@@ -705,7 +706,7 @@ fn run_case(case: &Case, srv: &Server, rng: &mut Rng) -> Value {
         // (and push) is over, and a little longer, so that the next receive call really has to wait for them
         if case.pre != "none" {
             let t = Instant::now();
-            while !ctx.polled.load(SeqCst) && t.elapsed() < Duration::from_secs(30) {
+            while !ctx.polled.load(SeqCst) && !ctx.done.load(SeqCst) && t.elapsed() < Duration::from_secs(60) {
                 thread::sleep(Duration::from_micros(200));
             }
             thread::sleep(Duration::from_millis(3));
@@ -750,21 +751,21 @@ fn run_case(case: &Case, srv: &Server, rng: &mut Rng) -> Value {
         // everything written has arrived when the send queue is empty; only then may a polling handler stop
         let fd = sock.as_raw_fd();
         let t0 = Instant::now();
-        while outq(fd) > 0 && t0.elapsed() < Duration::from_secs(10) && !ctx.done.load(SeqCst) {
+        while outq(fd) > 0 && t0.elapsed() < Duration::from_secs(60) && !ctx.done.load(SeqCst) {
             thread::sleep(Duration::from_micros(100));
         }
         ctx.stop.store(true, SeqCst);
-        // wait for the end of the server's stream; a hang is ended by the reader's 20 s read timeout
+        // wait for the end of the server's stream; a hang is ended by the reader's 45 s read timeout
         // (the model says every generated connection ends: the handler returns and the socket closes)
         let (fr, e) = reader.join().unwrap_or((vec![], "reset"));
         if e == "timeout" {
-            mismatch.push("the connection did not end within 20 s".into());
+            mismatch.push("the connection did not end within 45 s".into());
             let _ = sock.shutdown(Shutdown::Both);
         }
         frames_out = fr;
         end = e;
         let t2 = Instant::now();
-        while !ctx.done.load(SeqCst) && t2.elapsed() < Duration::from_secs(5) {
+        while !ctx.done.load(SeqCst) && t2.elapsed() < Duration::from_secs(20) {
             thread::sleep(Duration::from_micros(300));
         }
         if write_failed {
